@@ -51,6 +51,11 @@ def run_captured(call, args, backend=None):
     graphcap.clear_caches()
     with graphcap.capture() as cap:
         res = run_einx(call, args, backend)
+    if not cap.records:
+        # a cache that was created after the first scan served the call: rescan once and trace again
+        graphcap.clear_caches(rescan=True)
+        with graphcap.capture() as cap:
+            res = run_einx(call, args, backend)
     rec = cap.records[-1] if cap.records else None
     return res, rec
 
